@@ -233,6 +233,27 @@ def build_pool(cs, ctx):
                                -5.0 + rs.uniform(-1, 5, k)])
         view, guards = pool.carve(gxy, "contig_exact", "gxy")
         pool.add("gridxy", view, guards, f"gridxy[{k}]")
+    # points exactly on, and one ulp inside/outside, the edges and corners of
+    # every grid extent of the pool (all grids share xll=10, yll=-5, csz=0.5)
+    edge = []
+    for g in pool.by_kind.get("field", []):
+        x0, y0, c = 10.0, -5.0, 0.5
+        xs = [x0, x0 + c * int(g.obj.ncols), x0 + c * (int(g.obj.ncols) - 1)]
+        ys = [y0, y0 + c * int(g.obj.nrows), y0 + 0.25 * c]
+        for x in xs:
+            for y in ys:
+                for dx in (0.0, 1.0, -1.0):
+                    xx = x if dx == 0 else np.nextafter(x, x + dx)
+                    edge.append([xx, y])
+                    edge.append([x, y if dx == 0 else np.nextafter(y, y + dx)])
+    if edge:
+        e = np.array(edge, dtype=np.float64)
+        view, guards = pool.carve(e, "contig_exact", "gxyedge")
+        pool.add("gridxy", view, guards, f"gridxy[{len(e)} edge/corner points]")
+        nan_e = e[: min(6, len(e))].copy()
+        nan_e[::2, 0] = np.nan
+        view, guards = pool.carve(nan_e, "contig_exact", "gxynan")
+        pool.add("gridxy", view, guards, "gridxy[edge points with NaN]")
     return pool
 
 
@@ -438,6 +459,40 @@ def catalogue():
                     "then": [cs.choice(f"t{i}", ["boundary", "extent",
                                                  "flowpaths", "intersect"])
                              for i in range(2)]}, weight=5)
+    def small_plus_large(a, o):
+        """Boundary of the smaller catchment first, then the sum of the two
+        (smaller + larger, any grids), its boundary, extent and intersection."""
+        c1, c2 = a.c, a.d
+        if len(c1._idxcells_area) > len(c2._idxcells_area):
+            c1, c2 = c2, c1
+        out = []
+        try:
+            c1.delineate_boundary()
+        except Exception:
+            pass
+        c = c1 + c2
+        for step in o["then"]:
+            try:
+                if step == "boundary":
+                    c.delineate_boundary()
+                elif step == "intersect":
+                    out.append(c.intersect(a.g, filled=o["f"]))
+                elif step == "extent":
+                    out.append(c.extent())
+            except Exception:
+                pass
+        return out
+    add("smaller + larger catchment, then boundary/intersect (any grids)",
+        [CA, ("d", "catch", None), ("g", "coarse", None)], small_plus_large,
+        lambda cs: {"then": [cs.choice(f"t{i}", ["boundary", "intersect",
+                                                 "extent"]) for i in range(3)],
+                    "f": cs.flip("f", 30)}, weight=5)
+    add("smaller + larger catchment, then boundary/intersect (one grid)",
+        [CA, ("d", "catch", {"@pair:c"}), ("g", "coarse", None)],
+        small_plus_large,
+        lambda cs: {"then": [cs.choice(f"t{i}", ["boundary", "intersect",
+                                                 "extent"]) for i in range(3)],
+                    "f": cs.flip("f", 30)}, weight=5)
     add("Catchment.extent/isin", [CA],
         lambda a, o: (a.c.extent(), a.c.isin(o["c"])),
         lambda cs: {"c": cell(cs, "c")}, weight=2)
